@@ -76,6 +76,8 @@ def scan_statement_contract(s, name, text, expected_types, expected_values):
     texts -- is the one of the densely written statement.  (Spaces therefore cannot change anything downstream of the scanner.)"""
     toks = s.scan(name, text)
     check("same_number_of_tokens", len(toks) == len(expected_types))
+    if len(toks) != len(expected_types):
+        return
     i = 0
     for t in toks:
         check("same_token_type", t.type == expected_types[i])
